@@ -130,6 +130,13 @@ let op_delta_sides = function
       if DeltaOrder.sidesb c Delta.init (Delta.number_from O (lines_of_arg lines)) then "true" else "false"
   | _ -> "BADARGS"
 
+(* delta_safes lbs lines : the side condition of the --color-only theorem *)
+let op_delta_safes = function
+  | [ lbs; lines ] ->
+      let c = delta_cfg "1" "0" lbs in
+      if DeltaColorOnly.safesb c Delta.init (Delta.number_from O (lines_of_arg lines)) then "true" else "false"
+  | _ -> "BADARGS"
+
 (* blame_run n keys gitflags *)
 let op_blame_run = function
   | [ n; keys; flags ] ->
@@ -153,6 +160,7 @@ let dispatch = function
   | "delta_run" :: args -> op_delta_run args
   | "delta_prefix" :: args -> op_delta_prefix args
   | "delta_sides" :: args -> op_delta_sides args
+  | "delta_safes" :: args -> op_delta_safes args
   | "blame_run" :: args -> op_blame_run args
   | "blame_spec" :: args -> op_blame_spec args
   | "ping" :: _ -> "pong"
